@@ -1,5 +1,7 @@
 /- C11 invariants, part 10: the pending registration; who holds the write lock of an object -/
 import SemaModel.C11.Inv9
+set_option linter.unusedSimpArgs false
+set_option linter.unusedVariables false
 namespace Sema.C11
 
 def pendOf (th : Thread) : Option ObjId :=
